@@ -362,4 +362,70 @@ theorem welcome_create_zero_relays_refused : ¬ welcome_create_accepted_full := 
   revert this
   decide
 
+/-! ### 6. imeta tags -/
+
+/-- decimal printing and `u32` parsing of dimensions round-trip, for every pair of `u32` values -/
+theorem imeta_dim_roundtrip (w h : Nat) (hw : w < 4294967296) (hh : h < 4294967296) :
+    parseDim (showNat w ++ 120 :: showNat h) = some (w, h) :=
+  parseDim_show w h hw hh
+
+/-- **parse ∘ create**: parsing the tag `create_imeta_tag` writes yields exactly the media reference
+    `create_media_reference` builds — for every URL, every canonical allowed MIME type, every valid
+    file name, every 32-byte hash, 12-byte nonce, every (optional) `u32 × u32` dimensions and every
+    (optional) blurhash -/
+theorem imeta_parse_create (u : Upload) (url : Bytes)
+    (hm : validateMime u.mime = some u.mime) (hf : filenameOk u.filename = true)
+    (hx : isBytes u.hash = true ∧ u.hash.length = 32) (hn : isBytes u.nonce = true ∧ u.nonce.length = 12)
+    (hd : ∀ w h, u.dims = some (w, h) → w < 4294967296 ∧ h < 4294967296) :
+    imetaParse (imetaCreate u url) = .ok (mediaRefOf u url) :=
+  imetaParse_create u url hm hf hx hn (fun w h e => parseDim_show w h (hd w h e).1 (hd w h e).2)
+
+/-- every MIME type of the allow-list (and the escape hatch) is its own canonical form, so the
+    hypothesis `hm` above holds for everything `encrypt_for_upload` can produce -/
+theorem mime_allowlist_canonical :
+    (Generated.escapeHatchMimeType :: Generated.supportedMimeTypes).all (fun m => validateMime m == some m) = true := by
+  decide
+
+example : filenameOk [97, 32, 98, 46, 112, 110, 103] = true := by decide
+example : validateMime [32, 73, 77, 65, 71, 69, 47, 80, 78, 71, 32, 59, 113] = some [105, 109, 97, 103, 101, 47, 112, 110, 103] := by decide
+
+/-- **what an accepted imeta tag must contain**: the tag is named `imeta`, has ≥ 6 items, a supported
+    scheme version, a hash that is the hex of exactly 32 bytes, a nonce that is the hex of exactly 12
+    bytes, an allowed MIME type, a valid file name and a URL — each taken from an item of the tag -/
+theorem imeta_accept_implies (t : Tag) (r : MediaRef) (h : imetaParse t = .ok r) :
+    t.name = .imeta ∧ 6 ≤ t.vals.length ∧ r.version ∈ Generated.supportedSchemeVersions ∧
+    r.hash.length = 32 ∧ r.nonce.length = 12 ∧ filenameOk r.filename = true ∧
+    (∃ it ∈ t.vals, splitKV it = some (kUrl, r.url)) ∧
+    (∃ it ∈ t.vals, ∃ raw, splitKV it = some (kM, raw) ∧ validateMime raw = some r.mime) ∧
+    (∃ it ∈ t.vals, splitKV it = some (kFilename, r.filename)) ∧
+    (∃ it ∈ t.vals, ∃ v, splitKV it = some (kX, v) ∧ hexDec v = some r.hash) ∧
+    (∃ it ∈ t.vals, ∃ v, splitKV it = some (kN, v) ∧ hexDec v = some r.nonce) ∧
+    (∃ it ∈ t.vals, splitKV it = some (kV, r.version)) :=
+  imetaParse_ok t r h
+
+/-- rejection lemmas: a tag lacking a mandatory field is refused -/
+theorem imeta_reject_missing (t : Tag) (k : Bytes) (hk : k ∈ [kUrl, kM, kFilename, kX, kN, kV])
+    (hmiss : ∀ it ∈ t.vals, ∀ v, splitKV it ≠ some (k, v)) (r : MediaRef) : imetaParse t ≠ .ok r := by
+  intro h
+  obtain ⟨_, _, _, _, _, _, ⟨i1, m1, e1⟩, ⟨i2, m2, v2, e2, _⟩, ⟨i3, m3, e3⟩, ⟨i4, m4, v4, e4, _⟩, ⟨i5, m5, v5, e5, _⟩, ⟨i6, m6, e6⟩⟩ :=
+    imeta_accept_implies t r h
+  simp only [List.mem_cons, List.not_mem_nil, or_false] at hk
+  rcases hk with rfl | rfl | rfl | rfl | rfl | rfl
+  · exact hmiss i1 m1 _ e1
+  · exact hmiss i2 m2 _ e2
+  · exact hmiss i3 m3 _ e3
+  · exact hmiss i4 m4 _ e4
+  · exact hmiss i5 m5 _ e5
+  · exact hmiss i6 m6 _ e6
+
+theorem imeta_reject_wrong_name (t : Tag) (h : t.name ≠ .imeta) (r : MediaRef) : imetaParse t ≠ .ok r :=
+  fun hk => h (imeta_accept_implies t r hk).1
+
+theorem imeta_reject_version (t : Tag) (r : MediaRef) (h : imetaParse t = .ok r) :
+    r.version = Generated.defaultSchemeVersion := by
+  have := (imeta_accept_implies t r h).2.2.1
+  have hs : Generated.supportedSchemeVersions = [Generated.defaultSchemeVersion] := by decide
+  rw [hs] at this
+  simpa using this
+
 end MdkVerif.Props.C15
